@@ -479,6 +479,8 @@ class Exec:
         def status(name):
             return held.get((name, id(data)))
 
+        if "server_disconnected" in hk and status("server_disconnected") != "cancelled":
+            return "after_server_disconnected"
         if status("server_connect") == "cancelled":
             return "server_connect_hook_pending"
         if status("server_connected") == "cancelled":
